@@ -434,9 +434,8 @@ void Runner::op_drain_run(Thread *t, int idx, const Op &op, OpRes &res) {
     }
     if (complete) {
       // everything the child wrote must be there up to the first NUL byte of the payload
-      uint64_t total = c->out_off[s] - base[s];
-      uint64_t first_nul = total;
-      for (uint64_t i = 0; i < total; i++) if (k->byte_at(c->uid, s, base[s] + i) == 0) { first_nul = i; break; }
+      uint64_t total = c->out_off[s] >= base[s] ? c->out_off[s] - base[s] : 0;
+      uint64_t first_nul = total;  // payload bytes are never NUL (Kernel::byte_at)
       if (streamed != first_nul)
         viol("C16", "string-sink-incomplete", sname, fmt("the string holds %llu payload bytes, the child wrote %llu (first NUL at %llu)", (unsigned long long) streamed,
                                                         (unsigned long long) total, (unsigned long long) first_nul), idx);
